@@ -555,10 +555,6 @@ class MBXML:
         ), f"write_uintvar cannot write integers bigger than {cls.UINTVAR_MAX}"
         bin_val: str = bin(value)[2:][::-1]
 
-        if bin_val[0:7] == "0000000" and (len(bin_val) / 7) > 1:
-            # remove appended zeroes
-            bin_val = bin_val[7:]
-
         bin_len: int = len(bin_val)
         byte_len: int = math.ceil(bin_len / 7)
 
